@@ -97,6 +97,60 @@ def _solve(pb, pc, cfg, how, idx_override=None):
     return {"seq": seq, "stats": solver.get_statistics()}
 
 
+# ----------------------------------------------------------------------------------------------
+# user-written heuristics produced by a factory: distinct functions that share one __name__ (closures), registered side by
+# side.  Each delegates to a shipped heuristic, so a solver configured with it must behave exactly like the shipped one.
+# ----------------------------------------------------------------------------------------------
+_USER = {}
+
+
+def _make_user_dom_heuristic(take_max):
+    from numba import njit
+
+    from nucs.heuristics.max_value_dom_heuristic import max_value_dom_heuristic
+    from nucs.heuristics.min_value_dom_heuristic import min_value_dom_heuristic
+
+    @njit
+    def user_dom_heuristic(params, shr_domains_stack, not_entailed_propagators_stack, dom_update_stack, stacks_top, dom_idx):
+        if take_max:
+            return max_value_dom_heuristic(params, shr_domains_stack, not_entailed_propagators_stack, dom_update_stack, stacks_top, dom_idx)
+        return min_value_dom_heuristic(params, shr_domains_stack, not_entailed_propagators_stack, dom_update_stack, stacks_top, dom_idx)
+
+    return user_dom_heuristic
+
+
+def _make_user_var_heuristic(smallest):
+    from numba import njit
+
+    from nucs.heuristics.first_not_instantiated_var_heuristic import first_not_instantiated_var_heuristic
+    from nucs.heuristics.smallest_domain_var_heuristic import smallest_domain_var_heuristic
+
+    @njit
+    def user_var_heuristic(params, decision_domains, shr_domains_stack, stacks_top):
+        if smallest:
+            return smallest_domain_var_heuristic(params, decision_domains, shr_domains_stack, stacks_top)
+        return first_not_instantiated_var_heuristic(params, decision_domains, shr_domains_stack, stacks_top)
+
+    return user_var_heuristic
+
+
+def user_heuristics(first):
+    """Registers (once per process) the two user value heuristics and the two user variable heuristics; `first` says which
+    member of each pair is registered first.  Returns {"dom:min": idx, "dom:max": idx, "var:first": idx, "var:smallest": idx}."""
+    if not _USER:
+        doms = [("dom:min", _make_user_dom_heuristic(False)), ("dom:max", _make_user_dom_heuristic(True))]
+        vars_ = [("var:first", _make_user_var_heuristic(False)), ("var:smallest", _make_user_var_heuristic(True))]
+        if first % 2:
+            doms.reverse()
+        if (first // 2) % 2:
+            vars_.reverse()
+        for k, f in doms:
+            _USER[k] = H.register_dom_heuristic(f)
+        for k, f in vars_:
+            _USER[k] = H.register_var_heuristic(f)
+    return _USER
+
+
 def build_with_clones(pc, clones):
     pb = nx.Problem([tuple(d) for d in pc["shr"]], list(pc["idx"]), list(pc["off"]))
     for pr in pc["props"]:
@@ -124,7 +178,7 @@ def execute(case):
     have = {o[1] for o in obs}
     for op in case["ops"]:
         kind = op[0]
-        if kind in ("solve", "solve_clone", "reuse", "new", "split_after_solver", "narrow_after_solver"):
+        if kind in ("solve", "solve_clone", "solve_user", "reuse", "new", "split_after_solver", "narrow_after_solver"):
             pi, ci = op[1] % len(problems), op[2] % len(configs)
             pc, cfg = problems[pi], configs[ci]
             if key(pi, ci, ["find_all"]) not in have:
@@ -175,6 +229,20 @@ def execute(case):
             if "cons:" + cfg["cons"] in heur_clones:
                 over["consistency_alg_idx"] = heur_clones["cons:" + cfg["cons"]]
             obs.append(["solve_clone", key(pi, ci, how), _solve(build_with_clones(pc, clones), pc, cfg, how, over)])
+        elif kind == "solve_user":
+            # the configuration with its value (resp. variable) heuristic replaced by a user-written function that delegates to
+            # the shipped min/max value (resp. first / smallest domain) heuristic: same search, same statistics
+            u = user_heuristics(op[3])
+            dom, var = ["min", "max"][op[4] % 2], ["first", "smallest"][(op[4] // 2) % 2]
+            cfg2 = {"cons": cfg["cons"], "var": var, "dom": dom}
+            k2 = key(pi, ci, ["user", var, dom])
+            obs.append(["user-ref", k2, _solve(nx.build_problem(pc), pc, cfg2, ["find_all"])])
+            over = {}
+            if op[5] % 3 != 1:
+                over["dom_heuristic_idx"] = u["dom:" + dom]
+            if op[5] % 3 != 0:
+                over["var_heuristic_idx"] = u["var:" + var]
+            obs.append(["solve", k2, _solve(nx.build_problem(pc), pc, cfg2, ["find_all"], over)])
         elif kind == "split_after_solver":
             var, k = op[3] % len(pc["idx"]), 1 + op[4] % 4
             how = ["find_all"]
@@ -221,7 +289,7 @@ def history_verdict(obs):
     """(a): every observation must agree with the baseline of its key."""
     base = {}
     for label, k, v in obs:
-        if label in ("baseline", "split-fresh", "narrow-fresh"):
+        if label in ("baseline", "split-fresh", "narrow-fresh", "user-ref"):
             base.setdefault(k, v)
     for label, k, v in obs:
         if label in ("solve", "solve_clone", "reuse"):
@@ -258,7 +326,7 @@ def check(case):
     for l in labels:
         tags.append("obs:" + l)
     abandoned = any(op[0] in ("drop", "new", "reuse", "split_after_solver", "narrow_after_solver") for op in case["ops"])
-    registered = any(op[0] == "register" for op in case["ops"])
+    registered = any(op[0] in ("register", "solve_user") for op in case["ops"])
     nt = abandoned and registered and any(o[0] in ("solve", "solve_clone", "reuse") for o in obs)
     bad = history_verdict(obs)
     if bad:
@@ -287,6 +355,7 @@ def c15_case(draw, tier):
         st.tuples(st.just("register"), st.sampled_from(regs)),
         st.tuples(st.just("solve_clone"), st.integers(0, 5), st.integers(0, 5)),
         st.tuples(st.just("reuse"), st.integers(0, 5), st.integers(0, 5), st.integers(0, 5), st.integers(0, 5)),
+        st.tuples(st.just("solve_user"), st.integers(0, 5), st.integers(0, 5), st.integers(0, 3), st.integers(0, 3), st.integers(0, 2)),
         st.tuples(st.just("split_after_solver"), st.integers(0, 5), st.integers(0, 5), st.integers(0, 7), st.integers(0, 5), st.integers(0, 5)),
         st.tuples(st.just("narrow_after_solver"), st.integers(0, 5), st.integers(0, 5), st.integers(0, 7), st.integers(0, 1)),
     )
